@@ -85,6 +85,10 @@ func kindOfTokens(t []string) string {
 		return "pair"
 	case has("app"):
 		return "app"
+	case has("debt") && (has("asset") || has("token")):
+		return "debt-asset"
+	case has("collateral") && (has("asset") || has("token")):
+		return "collateral-asset"
 	case has("asset"):
 		return "asset"
 	case has("auction"):
@@ -356,6 +360,10 @@ func idKindRule(p *Prog, r *Report, rule string, modules map[string]bool, floor 
 
 func compatibleKinds(a, b string) bool {
 	if a == b {
+		return true
+	}
+	// a debt / collateral asset id is an asset id
+	if (a == "asset" && strings.HasSuffix(b, "-asset")) || (b == "asset" && strings.HasSuffix(a, "-asset")) {
 		return true
 	}
 	return false
